@@ -192,6 +192,34 @@ def check(run):
             wits.append({"kind": "panic on a corrupted artifact", "field": lab, "impl": last})
         elif bool(last.get("ok")) and not exp:
             wits.append({"kind": "altered artifact accepted", "field": lab, "how": "build all packages of shape 0, patch the JSON field, then link (core) / build Lib (interface)", "impl": {k: v for k, v in last.items() if k != "go"}})
+    # ---- kinds of edits: everything a dependent can observe must change the hash, a body-only edit must not ----------
+    import ifacegen
+
+    einputs = [{"dir": os.path.join(vlib.BUILD, "tmp", "c15", "edit%02d" % i), "ops": ifacegen.ops(nm)} for i, (nm, _, _) in enumerate(ifacegen.EDITS)]
+    eres = vlib.run_harness("sep", einputs, shards=8)
+    edit_stats = {"edits": len(ifacegen.EDITS), "stale_links_refused": 0, "body_only_links_accepted": 0}
+    known_edits = {k["replay"]["edit"]: k for k in run.known if k["replay"]["kind"] == "iface-edit"}
+    for (nm, visible, _), r in zip(ifacegen.EDITS, eres):
+        rs = r["results"]
+        if any("panic" in x for x in rs):
+            wits.append({"kind": "separate compilation API panicked", "edit": nm, "results": [x for x in rs if "panic" in x]})
+            continue
+        if not (rs[2].get("ok") and rs[3].get("ok") and rs[4].get("ok") and rs[6].get("ok")):
+            broken.append(Broken("generator", "C15 edit kinds: the project for `%s` does not build: %s" % (nm, [x.get("err") for x in rs if not x.get("ok")][:2])))
+            continue
+        second = rs[7].get("ok")
+        if visible and second:
+            if nm in known_edits:
+                run.known_finding(known_edits[nm]["id"], "%s: %s" % (known_edits[nm]["id"], known_edits[nm]["what"]))
+            else:
+                wits.append({"kind": "a dependent built before the edit `%s` of its dependency still links after only the dependency was rebuilt" % nm, "edit": nm, "base_before": ifacegen.BASE, "base_after": ifacegen.edited(nm), "main": ifacegen.MAIN,
+                             "history": "build Base, build Main, link; edit Base; build Base; link Base+Main"})
+        elif visible:
+            edit_stats["stale_links_refused"] += 1
+        elif not second:
+            wits.append({"kind": "an edit that changes no interface (`%s`) makes link refuse an up-to-date dependent: %s" % (nm, rs[7].get("err", "")[:200]), "edit": nm, "base_before": ifacegen.BASE, "base_after": ifacegen.edited(nm), "main": ifacegen.MAIN})
+        else:
+            edit_stats["body_only_links_accepted"] += 1
     # known finding: the core body (core_ir) is not covered by any checksum
     for k in run.known:
         if k["replay"]["kind"] == "core-body-unchecked":
@@ -209,7 +237,11 @@ def check(run):
         "each is executed against the real check_package/build_package/read_core/link_cores with real files; per op the success flag and the equality pattern of interface hashes are compared in coqc with the model; after a successful final link the real .core files are inspected: every recorded dependency hash must equal the dependency core's interface hash; "
         "plus %d single-field corruptions of core/interface JSON. non-trivial = contains an edit and a link" % (n_exh, len(hs) - n_exh, len(corr_inputs))
     )
-    run.cov["correspondence"] = {"histories": len(hs), "model_mismatches": len(mism), "links_ok": sum(1 for (s, h), r, pos in zip(hs, res, poss) if r["results"][pos[-1]].get("ok")), "links_rejected": sum(1 for (s, h), r, pos in zip(hs, res, poss) if not r["results"][pos[-1]].get("ok")), "corruptions": len(corr_inputs)}
+    run.cov["rule"] += (
+        "; %d kinds of edits of a dependency used by an already built dependent (struct fields reordered/added/renamed/retyped, enum variants reordered/added, payloads reordered/extended, trait methods reordered/added/retyped, "
+        "method and function signatures changed, items added/removed, impls added/removed): after rebuilding only the dependency, link must refuse the stale dependent; 4 body-only/layout edits must still link" % len(ifacegen.EDITS)
+    )
+    run.cov["correspondence"] = {"edit_kinds": edit_stats, "histories": len(hs), "model_mismatches": len(mism), "links_ok": sum(1 for (s, h), r, pos in zip(hs, res, poss) if r["results"][pos[-1]].get("ok")), "links_rejected": sum(1 for (s, h), r, pos in zip(hs, res, poss) if not r["results"][pos[-1]].get("ok")), "corruptions": len(corr_inputs)}
     run.cov["open_obligations"] = ["what counts as interface-visible is abstracted to a version number; that every signature/field/variant/trait/impl change alters the serialized exports is exercised only for added functions", "cyclic core sets and duplicate cores are outside the generated histories"]
     run.assumptions = ["sha256 is injective on the interface hash views of one history (hypothesis H_inj of every theorem)", "serde_json serialisation of the hash view is injective on the fields it contains"]
     if wits:
